@@ -215,6 +215,9 @@ func mod(i, n int) int {
 
 // otherChain picks a chain different from c.
 func (s *Sim) otherChain(c *world.Chain, i int) *world.Chain {
+	if c == nil {
+		return s.chain(i)
+	}
 	var others []string
 	for _, n := range s.W.Order {
 		if n != c.Name {
@@ -441,6 +444,9 @@ func (s *Sim) opFlow(op Op) *Violation {
 // receipt on `on`, not cleaned).
 func (s *Sim) canRecv(r *PacketRec, on string) bool {
 	p := r.P
+	if _, ok := s.W.Chains[on]; !ok {
+		return false
+	}
 	if on != p.DestinationChain && on != p.RelayChain {
 		return false
 	}
@@ -467,6 +473,9 @@ func (s *Sim) canRecv(r *PacketRec, on string) bool {
 
 func (s *Sim) canAck(r *PacketRec, on string) bool {
 	p := r.P
+	if _, ok := s.W.Chains[on]; !ok {
+		return false
+	}
 	if on != p.SourceChain && on != p.RelayChain {
 		return false
 	}
